@@ -5,7 +5,7 @@ from . import text_bounded
 ID = "C08"
 LEVEL = "other"
 MODES = ["gregorian"]
-FUNCS = ["data:TimePoint.__init__"]
+FUNCS = ["data:TimePoint.__init__", "ghost:dump_fields_recompose"]
 LEMMAS = ["wiy.range", "opaque.dby.step", "opaque.dby.range"]
 CANARIES = ["canary.week52"]
 EXPLANATION = ("PROVED: constructor contracts; memoisation soundness of dumper/parser caches (a cache keyed without an input it depends on is refuted). BOUNDED: str/parse round trip on a grid of TimePoints (3 representations, 5 precision forms incl. 24:00 and decimals, 12 offsets, year boundaries, expanded years) and 5 custom complete formats.")
